@@ -597,6 +597,22 @@ func (m *Module) renderTypes(p *Pkg) world.File {
 	return world.File{Path: p.Path + "/types.go", Data: []byte(head + b.String())}
 }
 
+// PkgGoFiles lists the base names of the Go files of package p that wire's loader sees (types.go and every
+// injector file that holds at least one injector), in name order.
+func (m *Module) PkgGoFiles(p *Pkg) []string {
+	out := []string{"types.go"}
+	for file := 0; file < p.NFiles; file++ {
+		for _, inj := range m.Injectors {
+			if inj.Pkg == p.Idx && inj.File == file {
+				out = append(out, m.injectorFileName(p, file))
+				break
+			}
+		}
+	}
+	sort.Strings(out)
+	return out
+}
+
 func (m *Module) injectorFileName(p *Pkg, file int) string {
 	if file == 0 {
 		return "wire.go"
